@@ -15,9 +15,14 @@
    shuffle; `rotor_new_fa1_pinned stakes order`).  Still a known finding: Rotor::new_fa1 panics at construction
    for some validator sets (C17_fa1_partition_constructible_refuted).
    PARTIAL (validated by the correspondence / oracle, not proved): that the real instances compute the
-   model's function irrespective of own id, construction time, call order and cache state; that
-   StdRng::from_seed is Lib/ChaCha.v's ChaCha12 and the weighted shuffle's sum tree computes
-   prefix-sum search. *)
+   model's function irrespective of own id, construction time, call order and cache state (several
+   independently constructed Rotor / Turbine instances per own id are asked the same triples - several slices
+   of one slot, several slots - in different orders and must give identical answers); that
+   StdRng::from_seed is Lib/ChaCha.v's ChaCha12 and the weighted shuffle's sum tree computes prefix-sum search;
+   that the receive path of consensus.rs forwards on every receipt, the leader's own included, before storing:
+   the loss-free runs of the check drive REAL Alpenglow nodes through handle_disseminator_shred and must
+   reproduce the model's delivery sequence (`run`, in which every node forwards on every receipt) and leave
+   the whole slice in every non-leader's blockstore. *)
 From Coq Require Import List NArith Bool.
 From AG Require Import Gen.Params Lib.ChaCha Model.Sampling Model.Routing Proofs.SamplingProofs Proofs.RoutingProofs.
 Import ListNotations.
